@@ -335,7 +335,9 @@ pub fn run(tier: Tier) -> i32 {
     };
     let twin_seqs: Vec<Vec<F>> = {
         let mut singles = Vec::new();
-        for a in ACTIONS {
+        // ... and operation names that are NOT one of the five: other letter case, trailing blank, empty (unknown = ignored)
+        let ops: Vec<&str> = ACTIONS.iter().copied().chain(["Add", "REMOVE", "Override", "default ", "", "Replace"]).collect();
+        for a in ops {
             for n in ["X^Y", "x~y"] {
                 singles.push(F { action: a.to_string(), header: n.to_string(), value: format!("t{}", a.len()), hash: false });
             }
